@@ -219,7 +219,8 @@ impl<'a> LiveEvents<'a> {
         alias_limits: AliasLimits,
         stop_at_doc_end: bool,
     ) -> Self {
-        let input = input.strip_prefix('\u{FEFF}').unwrap_or(input);
+        // The callers have already dropped a single leading byte-order mark; anything after
+        // it (including a second U+FEFF) is content, as it is for the reader entry points.
         Self {
             produced_any_in_doc: false,
             synthesized_null_emitted: false,
